@@ -279,6 +279,45 @@ def blake2_rows(prog, sh=None):
     return n, wrong
 
 
+def blake2_counter_rows(prog, sh=None):
+    """RFC 7693 2.1/3.2: the offset counter t is a 2w-bit number of bytes fed to the compression function.  The state's
+    low word is set to within two blocks of 2^w (as after 2^w - k bytes), more blocks are absorbed, and the two words must
+    hold the exact 2w-bit sum - the carry into the high word is what a 4 GiB BLAKE2s message depends on."""
+    from ..ceval import resolve, P
+    sh = sh or Shard()
+    wrong = []
+    n = 0
+    for nm, src, block, w in (("BLAKE2b", "src/blake2b.c", 128, 64), ("BLAKE2s", "src/blake2s.c", 64, 32)):
+        pre = nm.lower()
+        for back, high0, nbytes in ((block, 0, 2 * block + 1), (2 * block, 0, 2 * block + 1), (block + 1, 0, 3 * block), (block, 5, block + 2),
+                                    (3 * block, 0, 2 * block), (block // 2, 7, 4 * block + 3)):
+            if not sh.take():
+                continue
+            n += 1
+            m = Machine(prog, src, budget=800000000)
+            pp = m.alloc(8, "pstate", "heap", init=0)
+            rc = m.call(pre + "_init", [pp, m.alloc_bytes([0], "key"), 0, 16])
+            if rc != 0:
+                wrong.append("%s init returns %#x" % (nm, rc))
+                continue
+            st = m.load(pp, PTR)
+            t = resolve(m.tu.parse("hash_state"))
+            (olo, tlo), (ohi, thi) = t.fields["off_counter_low"], t.fields["off_counter_high"]
+            start = (high0 << w) + (1 << w) - back
+            m.store(P(st.obj, st.off + olo), tlo, start & ((1 << w) - 1))
+            m.store(P(st.obj, st.off + ohi), thi, start >> w)
+            rc = m.call(pre + "_update", [st, m.alloc_bytes([0x5A] * nbytes, "in"), nbytes])
+            lo = m.load(P(st.obj, st.off + olo), tlo)
+            hi = m.load(P(st.obj, st.off + ohi), thi)
+            # a block is compressed only once more data follows it: the last (possibly full) block stays buffered
+            done = ((nbytes - 1) // block) * block
+            want = start + done
+            if rc != 0 or (lo, hi) != (want & ((1 << w) - 1), want >> w):
+                wrong.append("%s: counter %#x, %d more bytes compressed: (low, high) = (%s, %s), t = %#x expected (code %r)" % (
+                    nm, start, done, hex(lo) if isinstance(lo, int) else lo, hex(hi) if isinstance(hi, int) else hi, want, rc))
+    return n, wrong
+
+
 def digest_tables(check, ctx, rule="K-kat", groups=("md", "keccak", "blake2")):
     prog = CProgram(ctx.cdb)
     table = {"md": ("md_rows", "src/hash_SHA2_template.c", [v[0] for v in MD.values()] + ["src/MD2.c"],
@@ -286,7 +325,9 @@ def digest_tables(check, ctx, rule="K-kat", groups=("md", "keccak", "blake2")):
              "keccak": ("keccak_rows", "src/keccak.c", ["src/keccak.c"],
                         "SHA-3, SHAKE (hashlib), TurboSHAKE / Keccak-p[1600,12] and Keccak with the pre-standard padding (the checker's sponge) around the rate boundaries, squeezed in two calls"),
              "blake2": ("blake2_rows", "src/blake2.c", ["src/blake2b.c", "src/blake2s.c"],
-                        "BLAKE2b / BLAKE2s for digest sizes 1..max, keyed and unkeyed, empty message, exact block multiples (the last block stays in the buffer), several blocks")}
+                        "BLAKE2b / BLAKE2s for digest sizes 1..max, keyed and unkeyed, empty message, exact block multiples (the last block stays in the buffer), several blocks"),
+             "blake2-counter": ("blake2_counter_rows", "src/blake2.c", ["src/blake2b.c", "src/blake2s.c"],
+                                "RFC 7693: the offset counter is the 2w-bit number of bytes compressed - the carry from the low into the high word at 2^32 (BLAKE2s) / 2^64 (BLAKE2b) bytes, from states set just below the boundary")}
     total = 0
     for g in groups:
         fname, src, tus, what = table[g]
@@ -298,7 +339,7 @@ def digest_tables(check, ctx, rule="K-kat", groups=("md", "keccak", "blake2")):
             raise AnalysisError("C evaluator could not decide the %s digest rows: %s" % (g, und))
         total += n
         check.ob(rule, "%s|c|digest.%s" % (rule, g), not wrong, src, 0,
-                 extracted=("%d of %d rows differ: " % (len(wrong), n) + "; ".join(wrong[:3])) if wrong else "%d digests equal to the independent implementation" % n,
+                 extracted=("%d of %d rows differ: " % (len(wrong), n) + "; ".join(wrong[:3])) if wrong else ("%d rows as specified" % n if g.endswith("counter") else "%d digests equal to the independent implementation" % n),
                  expected=what)
     check.count("c_digest_rows", total)
     return total
